@@ -312,6 +312,47 @@ def decode (r0 r1 : Nat) : Meaning :=
     (if r1 >>> 8 < 256 then .forward 16 (Frame.ofBytesBE [r1 >>> 8, r1 &&& 0xFF]) else .raises .ValueError)
   else .noAnswer
 
+/-! ### receive side of `SyncUnipiDALIDriver.send`
+
+The gateway publishes a received frame in three holding registers: a free-running 16-bit receive counter, a type
+word and the data.  `send` samples the counter (and the framing-error counter) right after transmitting and then
+polls the three registers six times; **a reply is new ⇔ the counter differs from the sample** (`!=`, not `>`: the
+counter wraps from 0xFFFF to 0). -/
+
+/-- what `send` returns: `DALI_NO_RESPONSE`, or `command.response(BackwardFrame(v))` / `command.response(None)` -/
+inductive SendResult where
+  | noResponse
+  | response (v : Option Nat)
+  deriving DecidableEq, Repr
+
+/-- the registers read in one iteration of the polling loop (`fe` = framing-error counter, read for Compare only) -/
+structure Poll where
+  counter : Nat
+  r0 : Nat
+  r1 : Nat
+  fe : Nat
+  deriving DecidableEq, Repr
+
+/-- `_read_returning_frame(counter1)`: `None` unless the counter changed -/
+def readReturning (c1 : Nat) (p : Poll) : Option Meaning :=
+  if c1 != p.counter then some (decode p.r0 p.r1) else none
+
+/-- the `for i in range(6)` loop of `send` over the registers it reads; an exception (a backward-frame register
+that does not fit 8 bits) is swallowed by `except Exception: pass` and `DALI_NO_RESPONSE` returned -/
+def pollLoop (isCompare : Bool) (c1 fe1 : Nat) : List Poll → SendResult
+  | [] => .response none
+  | p :: ps =>
+    match readReturning c1 p with
+    | some (.raises _) => .noResponse
+    | some (.backward v) => .response (some v)
+    | _ => if isCompare && fe1 != p.fe then .response (some 255) else pollLoop isCompare c1 fe1 ps
+
+def nPolls : Nat := 6
+
+/-- `send` after `_send_command`: `c1`/`fe1` are the sampled counters, `polls` what the following reads return -/
+def recv (isQuery isCompare : Bool) (c1 fe1 : Nat) (polls : List Poll) : SendResult :=
+  if !isQuery then .noResponse else pollLoop isCompare c1 fe1 (polls.take nPolls)
+
 end Unipi
 
 end DaliVerif.Wire
